@@ -42,7 +42,9 @@ theorem parsePackHeader_ok (rb : Bytes) (i : Nat) : ∃ r, parsePackHeader rb i 
   unfold parsePackHeader
   split
   · exact ⟨_, rfl⟩
-  · rw [idx?_ok (by omega)]; exact ⟨_, rfl⟩
+  · rw [idx?_ok (by omega)]
+    dsimp only
+    split <;> exact ⟨_, rfl⟩
 
 theorem parsePackStreamBody_ok (rb : Bytes) (i : Nat) : ∃ r, parsePackStreamBody rb i = .ok r := by
   unfold parsePackStreamBody
